@@ -4,26 +4,30 @@ EXTENDS Stream
 Msg(code, tok, opts, pay) == [code |-> code, tok |-> tok, opts |-> opts, pay |-> pay]
 Rep(n, x) == [k \in 1..n |-> x]
 Cat == <<
-  [max |-> 1000, frames |-> <<Msg(1, <<>>, <<>>, <<>>), Msg(2, <<7>>, <<>>, <<1, 2>>), Msg(69, <<>>, <<[id |-> 11, val |-> <<97>>]>>, <<>>)>>],
-  [max |-> 1000, frames |-> <<Msg(225, <<>>, <<[id |-> 2, val |-> <<4, 0>>]>>, <<>>), Msg(226, <<>>, <<>>, <<>>), Msg(1, <<>>, <<[id |-> 11, val |-> <<97>>]>>, <<>>)>>],
+  [max |-> 1000, tail |-> <<>>, frames |-> <<Msg(1, <<>>, <<>>, <<>>), Msg(2, <<7>>, <<>>, <<1, 2>>), Msg(69, <<>>, <<[id |-> 11, val |-> <<97>>]>>, <<>>)>>],
+  [max |-> 1000, tail |-> <<>>, frames |-> <<Msg(225, <<>>, <<[id |-> 2, val |-> <<4, 0>>]>>, <<>>), Msg(226, <<>>, <<>>, <<>>), Msg(1, <<>>, <<[id |-> 11, val |-> <<97>>]>>, <<>>)>>],
   \* a frame longer than MaxSize between two good ones (MaxSize = 5)
-  [max |-> 5,    frames |-> <<Msg(1, <<>>, <<>>, <<>>), Msg(2, <<7>>, <<>>, <<1, 2>>), Msg(3, <<>>, <<>>, <<>>)>>],
+  [max |-> 5, tail |-> <<>>, frames |-> <<Msg(1, <<>>, <<>>, <<>>), Msg(2, <<7>>, <<>>, <<1, 2>>), Msg(3, <<>>, <<>>, <<>>)>>],
   \* larger streams: length classes 13 / 14 / 15, token lengths, signalling; directed + random schedules only
-  [max |-> 70000, frames |-> <<Msg(2, Rep(8, 9), <<>>, Rep(12, 255)), Msg(1, <<>>, <<>>, <<>>), Msg(3, <<1>>, <<[id |-> 11, val |-> Rep(13, 97)]>>, Rep(254, 7))>>],
-  [max |-> 70000, frames |-> <<Msg(2, <<1, 2>>, <<>>, Rep(300, 255)), Msg(227, <<5>>, <<>>, <<>>), Msg(2, <<>>, <<>>, Rep(65804, 1)), Msg(1, <<9>>, <<>>, <<>>)>>],
+  [max |-> 70000, tail |-> <<>>, frames |-> <<Msg(2, Rep(8, 9), <<>>, Rep(12, 255)), Msg(1, <<>>, <<>>, <<>>), Msg(3, <<1>>, <<[id |-> 11, val |-> Rep(13, 97)]>>, Rep(254, 7))>>],
+  [max |-> 70000, tail |-> <<>>, frames |-> <<Msg(2, <<1, 2>>, <<>>, Rep(300, 255)), Msg(227, <<5>>, <<>>, <<>>), Msg(2, <<>>, <<>>, Rep(65804, 1)), Msg(1, <<9>>, <<>>, <<>>)>>],
   \* oversize in the 14 and 15 classes
-  [max |-> 100,  frames |-> <<Msg(1, <<>>, <<>>, <<>>), Msg(2, <<7>>, <<>>, Rep(200, 3)), Msg(3, <<>>, <<>>, <<>>)>>],
-  [max |-> 1152, frames |-> <<Msg(1, <<4>>, <<>>, Rep(5, 5)), Msg(2, <<>>, <<>>, Rep(66000, 3)), Msg(3, <<>>, <<>>, <<>>)>>],
+  [max |-> 100, tail |-> <<>>, frames |-> <<Msg(1, <<>>, <<>>, <<>>), Msg(2, <<7>>, <<>>, Rep(200, 3)), Msg(3, <<>>, <<>>, <<>>)>>],
+  [max |-> 1152, tail |-> <<>>, frames |-> <<Msg(1, <<4>>, <<>>, Rep(5, 5)), Msg(2, <<>>, <<>>, Rep(66000, 3)), Msg(3, <<>>, <<>>, <<>>)>>],
   \* the top of the two-byte length class (declared lengths 65536 .. 65804, extension 0xFEF3 .. 0xFFFF): delivered whole under a
   \* large limit, refused on the header under the default one
-  [max |-> 70000, frames |-> <<Msg(1, <<3>>, <<>>, <<>>), Msg(2, <<>>, <<>>, Rep(65803, 2)), Msg(2, <<8>>, <<>>, Rep(65535, 4)), Msg(2, <<>>, <<>>, Rep(65700, 6)), Msg(1, <<9>>, <<>>, <<>>)>>],
-  [max |-> 65536, frames |-> <<Msg(1, <<3>>, <<>>, <<>>), Msg(2, <<>>, <<>>, Rep(65803, 2)), Msg(1, <<9>>, <<>>, <<>>)>>],
+  [max |-> 70000, tail |-> <<>>, frames |-> <<Msg(1, <<3>>, <<>>, <<>>), Msg(2, <<>>, <<>>, Rep(65803, 2)), Msg(2, <<8>>, <<>>, Rep(65535, 4)), Msg(2, <<>>, <<>>, Rep(65700, 6)), Msg(1, <<9>>, <<>>, <<>>)>>],
+  [max |-> 65536, tail |-> <<>>, frames |-> <<Msg(1, <<3>>, <<>>, <<>>), Msg(2, <<>>, <<>>, Rep(65803, 2)), Msg(1, <<9>>, <<>>, <<>>)>>],
   \* a message the application's request monitor refuses (token DD, see Refused) between messages it lets through: every segmentation
-  [max |-> 1000, frames |-> <<Msg(1, <<>>, <<>>, <<>>), Msg(1, <<221>>, <<>>, <<>>), Msg(2, <<7>>, <<>>, <<1>>), Msg(3, <<>>, <<>>, <<>>)>>]
+  [max |-> 1000, tail |-> <<>>, frames |-> <<Msg(1, <<>>, <<>>, <<>>), Msg(1, <<221>>, <<>>, <<>>), Msg(2, <<7>>, <<>>, <<1>>), Msg(3, <<>>, <<>>, <<>>)>>],
+  \* a valid frame followed by a header that is wrong in itself (tail: raw bytes - length nibble 15 with an extension that takes the
+  \* declared length past 2^32): refused when that header is seen, however the bytes are cut (also inside the valid frame)
+  [max |-> 1000, tail |-> <<240, 255, 255, 255, 255, 1>>, frames |-> <<Msg(1, <<5>>, <<[id |-> 11, val |-> Rep(20, 97)]>>, <<>>)>>]
 >>
 \* the driver's connections run with a request monitor that refuses exactly these messages: they are taken from the stream like any
 \* other frame but not dispatched; everything else is
 Refused(m) == m.tok = <<221>>
 RECURSIVE Concat(_)
 Concat(fs) == IF fs = <<>> THEN <<>> ELSE EncTCP(Head(fs)) \o Concat(Tail(fs))
+BytesOf(c) == Concat(c.frames) \o c.tail
 =============================================================================
